@@ -38,12 +38,32 @@ def load_corpus(prop: str) -> list[dict]:
     return out
 
 
-def direct_corr(env: Env, out: Outcome, n: int) -> None:
-    g = direct.Gen(random.Random(env.rng.randrange(1 << 30)))
+def direct_corr(env: Env, out: Outcome, n: int, gen_kwargs: dict | None = None,
+                pair_monitor: Callable[[Any, Any, Any, list], list[tuple[str, str]]] | None = None,
+                gen_seed: int | None = None, only_index: int | None = None) -> None:
+    """`pair_monitor(state, tick, state', commands)` states a property directly on each real reducer step (independent
+    of the model); its violations replay through (gen_seed, index): the generator is deterministic per seed."""
+    if gen_seed is None:
+        gen_seed = env.rng.randrange(1 << 30)
+    g = direct.Gen(random.Random(gen_seed), **(gen_kwargs or {}))
     ops: list[str] = []
     exp: list[str] = []
-    for _ in range(n):
+    for idx in range(n):
         o, e, info = direct.run_pair(g, illformed=(g.rng.random() < 0.15))
+        if pair_monitor is not None and "pair" in info and (only_index is None or idx == only_index):
+            st0, tk, st2, cmds = info["pair"]
+            for sig, what in pair_monitor(st0, tk, st2, cmds):
+                out.violations.append(Violation(sig, "direct reducer pair: " + what,
+                                                {"direct_pair": {"gen_seed": gen_seed, "index": idx, "gen_kwargs": gen_kwargs or {},
+                                                                 "cfg": o[0][:3000], "state": o[1][:6000], "reduce": o[-1][:3000]}}))
+            if isinstance(tk, direct.T.TickStepResult) and st2 is not None:
+                from . import monitors as _m
+                ex = _m.c09_stale_rerun_expectation(st0, tk)
+                if ex is not None:
+                    olds = next(ip for ip in st0.workers[tk.step_name].in_progress if ip.worker_id == tk.worker_id).shared_state.collected_events
+                    out.count("direct:stale_add:" + ("snapshot_is_prefix" if _m.c09_snapshot_is_prefix(olds, ex[2]) else "snapshot_from_earlier_round"))
+        if only_index is not None:
+            continue
         ops += o
         exp += e
         out.evaluations += 1
@@ -56,6 +76,8 @@ def direct_corr(env: Env, out: Outcome, n: int) -> None:
             out.count("direct:multi_collect_same_buffer:" + info["multi_collect"])
         if info.get("out") != "crash":
             out.nontrivial(o[-1])
+    if only_index is not None:
+        return
     try:
         mo = Driver("engine").run(ops)
     except Exception as ex:
